@@ -13,8 +13,18 @@ import (
 func main() {
 	c := core.New("C01", "model_checking")
 	c.Set("rule", "states = ideals (event sets) of each DAG, transitions = Process of one more event on a fresh instance after replaying a shortest path; a second path into an ideal with a different canonical observation is a violation; families as for C10 plus multi-epoch sealing at every frame with unchanged / re-weighted / shrunk / grown validator sets")
+	// quick tier: the (small) multi-epoch part first, so that a wall-clock cap on a loaded machine cannot starve it;
+	// thorough tier: the multi-epoch part is large and comes last (its quick version ran in the quick stage)
+	epochs := func() {
+		cons.ExploreEpochs(c, cons.Report{"accept": true, "order": true, "ref": true, "epoch": true}, true)
+	}
+	if c.Quick() {
+		epochs()
+	}
 	cons.ExploreConsensus(c, cons.DefaultConsFamilies(c.Quick(), false), cons.Report{"accept": true, "order": true, "ref": true})
-	cons.ExploreEpochs(c, cons.Report{"accept": true, "order": true, "ref": true, "epoch": true}, true)
+	if !c.Quick() {
+		epochs()
+	}
 	c.Assume("valid event sets: forkers hold < 1/3 of the weight; events carry the frames Build would assign")
 	c.Finish()
 }
